@@ -30,6 +30,16 @@ def vo_fresh(vfile):
     vo = v + "o"
     return os.path.exists(vo) and os.path.getmtime(vo) >= os.path.getmtime(v)
 
+def traces_agree(t, mtr):
+    """event-by-event equality; a recording that hit the recorder's cap prints '#<steps>:capped[:labels]' and is
+    compared by its step count and labels only"""
+    if t == mtr:
+        return True
+    if t.startswith("#") and ":capped" in t and mtr.startswith("#"):
+        a = t.split(":"); b = mtr.split(":")
+        return a[0] == b[0] and a[2:] == b[2:]
+    return False
+
 def run_cases(P, cases, builds, want_model=True, envs=None):
     """returns dict name -> rows; 'model' -> rows.  Cases carrying cpu=<sse2|none> are run in separate
     processes with MEMCHR_VERIF_CPU set, so that the real dispatcher takes that branch.  The case list is cut
@@ -148,7 +158,7 @@ def conc_run(P, tier, seed, builds, okm, stats, violations, mismatches):
                     stats["compared_results"] += 1
                     if vlib.canon_res(mres) != cres:
                         mismatches.append((f"result mismatch [{bname}, {n} threads]: impl={res} model={mres}", line))
-                    elif t not in ("?", "-") or mtr != "-":
+                    elif t != "?" and (t != "-" or mtr != "-"):
                         if op in ("find", "rfind", "count", "iter", "mm"):
                             stats["compared_traces"] += 1
                             if mtr != t:
@@ -264,6 +274,12 @@ def main():
             broken.append(("proof", "Print Assumptions missing for", ",".join(missing)))
         for name, stmt in P.get("pinned", {}).items():
             pass
+    chk = None
+    if tier == "thorough" and props_vo_ok and not os.environ.get("VERIF_NO_COQCHK"):
+        chk = vlib.coqchk(pid)
+        log(f"coqchk: ok={chk['ok']} axioms={chk['axioms']} wall={chk['wall']:.0f}s")
+        if not chk["ok"] or chk["axioms"] or chk["type_in_type"] or chk["unsafe"]:
+            broken.append(("proof", "coqchk (independent checker)", f"ok={chk['ok']} axioms={chk['axioms']} {chk['tail'][-300:]}"))
     obligations = nproofs(P["coq_files"])
     discharged = nproofs([f for f in P["coq_files"] if vo_fresh(f)]) if cb["ok"] else nproofs([f for f in P["coq_files"] if vo_fresh(f) and not f.startswith("Props/")])
     log(f"coq: ok={cb['ok']} obligations={obligations} discharged={discharged} closed={closed} wall={cb['wall']:.1f}s")
@@ -353,7 +369,7 @@ def main():
                         mismatches.append((f"result mismatch [{bname}]: impl={res} model={mres}", line))
                     elif P.get("compare_trace", True) and t != "?" :
                         stats["compared_traces"] += 1
-                        if mtr != t:
+                        if not traces_agree(t, mtr):
                             mismatches.append((f"trace mismatch [{bname}]: impl={t} model={mtr}", line))
     judge(cases, outs, builds_for_loop, model_rows)
 
@@ -492,6 +508,8 @@ def main():
         exhaustive=False,
     )
     coverage.update(cert_stats)
+    if chk:
+        coverage.update(coqchk_ok=chk["ok"], coqchk_axioms=chk["axioms"], coqchk_wall_s=round(chk["wall"]))
     coverage.update(emu_info)
     if conc_info:
         coverage.update(conc_info)
